@@ -36,6 +36,13 @@ EXTRA = [
      "all 64-bit states and all bytes; z3 and cvc5 must both answer unsat"),
 ]
 
+# Passed to CBMC for every harness. Field sensitivity for arrays up to 4200 elements: without it CBMC
+# treats every heap object larger than 64 bytes (Box, Vec buffers, the DBInner) as one opaque byte
+# array, constants stored in it (Vec len / cap, enum discriminants) are lost for symbolic execution,
+# infeasible paths (Vec growth, realloc) are explored and the encoding runs out of memory
+# (measured: Tx::new with one registered reader: OOM at 10 GB without, 31 s with).
+CBMC_TAIL = ["-Z", "unstable-options", "--cbmc-args", "--max-field-sensitivity-array-size", "4200"]
+
 OB_RE = re.compile(r"^\s*//\s*@ob\s+(.*)$")
 FN_RE = re.compile(r"^\s*(?:pub\s+)?fn\s+([A-Za-z0-9_]+)\s*\(")
 
@@ -184,20 +191,48 @@ class Scratch:
         shutil.rmtree(self.root, ignore_errors=True)
 
 
-def _limits():
-    os.setsid()
-    lim = MEM_GB * 1024 ** 3
-    resource.setrlimit(resource.RLIMIT_AS, (lim, lim))
+MEM_BUDGET_GB = int(os.environ.get("JV_MEM_BUDGET_GB", "54"))
 
 
-def run_cmd(cmd, cwd, cap, logpath, limit_mem=True):
+class MemBudget:
+    """harnesses declare their address-space cap (mem=<GB>, default MEM_GB); the sum of the caps of
+    the running ones never exceeds MEM_BUDGET_GB (the sandbox has 62 GB and no swap)"""
+
+    def __init__(self, total):
+        self.free = total
+        self.cv = threading.Condition()
+
+    def acquire(self, n):
+        with self.cv:
+            while self.free < n:
+                self.cv.wait()
+            self.free -= n
+
+    def release(self, n):
+        with self.cv:
+            self.free += n
+            self.cv.notify_all()
+
+
+BUDGET = MemBudget(MEM_BUDGET_GB)
+
+
+def _limits_for(gb):
+    def f():
+        os.setsid()
+        lim = gb * 1024 ** 3
+        resource.setrlimit(resource.RLIMIT_AS, (lim, lim))
+    return f
+
+
+def run_cmd(cmd, cwd, cap, logpath, limit_mem=True, mem_gb=None):
     env = dict(os.environ)
     env["CARGO_NET_OFFLINE"] = "true"
     env.pop("RUSTUP_TOOLCHAIN", None)
     t0 = time.time()
     with open(logpath, "w") as lf:
         p = subprocess.Popen(cmd, cwd=cwd, stdout=lf, stderr=subprocess.STDOUT, env=env,
-                             preexec_fn=_limits if limit_mem else os.setsid)
+                             preexec_fn=_limits_for(mem_gb or MEM_GB) if limit_mem else os.setsid)
         timed_out = False
         try:
             p.wait(timeout=cap)
@@ -217,8 +252,14 @@ def run_harness(scratch, ob, logdir, cap_scale=1.0):
     cmd = ["cargo", "kani", "--target-dir", slot, "--exact", "--harness", ob["path"], "-Z", "stubbing"]
     if ob.get("flags"):
         cmd += ob["flags"].split()
+    cmd += CBMC_TAIL
     cap = int(ob["cap"] * cap_scale)
-    rc, timed_out, wall = run_cmd(cmd, scratch.crate_for(ob.get("profile", "model")), cap, log)
+    mem = min(int(ob.get("mem", MEM_GB)), MEM_BUDGET_GB)
+    BUDGET.acquire(mem)
+    try:
+        rc, timed_out, wall = run_cmd(cmd, scratch.crate_for(ob.get("profile", "model")), cap, log, mem_gb=mem)
+    finally:
+        BUDGET.release(mem)
     scratch.release(slot)
     text = open(log, errors="replace").read()
     r = parse_log(text)
@@ -276,6 +317,7 @@ def replay(scratch, ob, res, prop, logdir):
            "-Z", "concrete-playback", "--concrete-playback=inplace", "-Z", "stubbing"]
     if ob.get("flags"):
         cmd += ob["flags"].split()
+    cmd += CBMC_TAIL
     run_cmd(cmd, rc_dir, int(ob["cap"] * 2) + 120, log)
     scratch.release(slot)
     hfile = os.path.join(rc_dir, "src", "jv", ob["module"] + ".rs")
